@@ -2,7 +2,8 @@
    Only statements, [exact], Examples and [Print Assumptions] live here. *)
 From Coq Require Import String List Arith Bool.
 Require Import TT.Model.Str TT.Model.C08Fingerprint TT.Model.C08Run.
-Require Import TT.Proofs.C08RunProofs TT.Proofs.C08FpProofs TT.Proofs.C08Examples.
+Require Import TT.Model.C17History.
+Require Import TT.Proofs.C08RunProofs TT.Proofs.C08FpProofs TT.Proofs.C08Examples TT.Proofs.C17HistoryProofs.
 Import ListNotations.
 
 Notation up_to_date_c := (up_to_date project config sched fname tree tree files).
@@ -63,6 +64,55 @@ Theorem C17_repaired_truncating_failure :
   fst r3 = Failure /\ s_out (snd r3) Types = None /\ fst r4 = Success /\ all_current w1 (snd r4) = true.
 Proof. exact c17_repaired_truncation. Qed.
 
+(* ---------------- histories ----------------
+   A step (hstep17) is one run - forced or not, fault-free or failing at write k for any k (k >= length plan: only the
+   record write fails), since C17-1 a failing write leaves no file behind - optionally preceded by an arbitrary edit of
+   sources and configuration. Ghost components: the inputs of the generation that wrote the record; dirty = a failed run
+   has written over the output since then.
+   Inv17: whenever a record is on disk it is the fingerprint of the generation that wrote it, and unless dirty every
+   file of that generation is in place, complete. *)
+Notation Inv17_c := (Inv17 project config sched fname tree tree files fp).
+
+Theorem C17_inv_init : forall p c, Inv17_c (init17 p c).
+Proof. exact Inv17_init. Qed.
+
+Theorem C17_inv_step : forall (s : hstate17_c) (h : hstep17_c), Inv17_c s -> Inv17_c (step17_c s h).
+Proof. exact (Inv17_step project config sched fname tree tree fname_eqb tree_eqb files fp has_commands g_force true
+                fname_eqb_spec files_nodup). Qed.
+
+Theorem C17_history : forall (steps : list hstep17_c) p c, Inv17_c (fold_left step17_c steps (init17 p c)).
+Proof. exact Inv17_history_c. Qed.
+
+(* after any history, a non-forced run that reports success leaves exactly the files of a fresh generation; one that
+   reports up to date does so when the output is clean (no failed run has written over it since the record was made) and
+   the state is outside C08's recorded class *)
+Theorem C17_history_success_means_current : forall steps p c w st g d,
+  fold_left step17_c steps (init17 p c) = (st, g, d) ->
+  forall r st', run_c true w false None st = (r, st') ->
+  r = Success \/ (r = UpToDate /\ d = false /\ kf_C08 w (st, g) = []) -> up_to_date_c w st'.
+Proof. exact history_success_current. Qed.
+
+(* the statement without the clean-output premise: not asserted, false on the model *)
+Definition C17_history_full_statement : Prop := forall steps p c w st g d,
+  fold_left step17_c steps (init17 p c) = (st, g, d) ->
+  forall r st', run_c true w false None st = (r, st') ->
+  r = Success \/ (r = UpToDate /\ kf_C08 w (st, g) = []) -> up_to_date_c w st'.
+
+(* witness: A (no events) generated; edit to B (emits an event) and the run fails at events.ts after writing B's types.ts
+   and commands.ts, the record still A's; revert to A, whose plan has no events.ts: every file of it is present, the
+   record matches - "up to date" over B's files. An edit (a revert to the recorded inputs) between the failed run and the
+   recovery: outside the property's quantifier (recovery runs follow the fault), documented. *)
+Theorem C17_history_refuted :
+  let '(st, g, d) := fold_left step17_c steps_refuting (init17 p_field_type c0) in
+  d = true /\ kf_C08 w1 (st, g) = [] /\ fst (run_c true w1 false None st) = UpToDate /\
+  all_current w1 (snd (run_c true w1 false None st)) = false.
+Proof. exact history_full_refuted. Qed.
+
+Example C17_ex_history :
+  let '(st, g, d) := fold_left step17_c steps_example (init17 p0 c0) in
+  d = true /\ fst (run_c true w1 false None st) = Success /\ all_current w1 (snd (run_c true w1 false None st)) = true.
+Proof. exact history_example. Qed.
+
 Example C17_ex_premises :
   fst (run_c true w1 false (Some 1) (init_state p0 c0)) = Failure /\
   fst (run_c true w1 false (Some 4) (init_state p0 c0)) = Success /\
@@ -73,3 +123,8 @@ Print Assumptions C17_fault.
 Print Assumptions C17_record_last.
 Print Assumptions C17_recovery_outcomes.
 Print Assumptions C17_repaired_truncating_failure.
+Print Assumptions C17_inv_init.
+Print Assumptions C17_inv_step.
+Print Assumptions C17_history.
+Print Assumptions C17_history_success_means_current.
+Print Assumptions C17_history_refuted.
